@@ -17,6 +17,7 @@ pub mod alonzo { include!(concat!(env!("OUT_DIR"), "/alonzo.rs")); }
 pub mod babbage { include!(concat!(env!("OUT_DIR"), "/babbage.rs")); }
 pub mod conway { include!(concat!(env!("OUT_DIR"), "/conway.rs")); }
 include!(concat!(env!("OUT_DIR"), "/run_all.rs"));
+include!(concat!(env!("OUT_DIR"), "/coverage.rs"));
 
 use pallas_traverse::{MultiEraInput, MultiEraOutput, MultiEraTx};
 use pallas_validate::phase1::validate_txs;
@@ -209,9 +210,41 @@ pub fn probe(txs: &[MultiEraTx], env: &Environment, utxos: &UTxOs, cert_state: &
     validate_txs(txs, env, utxos, cert_state)
 }
 
+/// redeemer coverage, function level: the current text of the three coverage functions on every pair of lists of up to four keys out of
+/// {Spend 0, Spend 1, Mint 0} (121 x 121 pairs each, duplicates and any order included). Ok is only allowed when every redeemer points at a
+/// script purpose and every purpose has a redeemer.
+thread_local! { static COV: std::cell::Cell<u64> = std::cell::Cell::new(0); }
+macro_rules! coverage { ($m:ident, $mk:expr) => {{
+    if !$m::FOUND { println!("note: {} is no longer found as a function of that name and shape; its coverage check is skipped", $m::NAME); }
+    else {
+        let universe: Vec<$m::Key> = $mk;
+        let mut lists: Vec<Vec<$m::Key>> = vec![vec![]];
+        let mut last: Vec<Vec<$m::Key>> = vec![vec![]];
+        for _ in 0..4 { let mut next = Vec::new(); for l in &last { for u in &universe { let mut x = l.clone(); x.push(u.clone()); next.push(x); } } lists.extend(next.iter().cloned()); last = next; }
+        let mut oks = 0u64;
+        for r in &lists { for s in &lists {
+            COV.with(|n| n.set(n.get() + 1));
+            if $m::call(r, s).is_ok() {
+                oks += 1;
+                if let Some(p) = s.iter().find(|p| !r.contains(p)) { fail(format!("{}: ACCEPTS redeemers {r:?} for script purposes {s:?} although purpose {p:?} has no redeemer", $m::NAME)); }
+                if let Some(p) = r.iter().find(|p| !s.contains(p)) { fail(format!("{}: ACCEPTS redeemers {r:?} for script purposes {s:?} although redeemer {p:?} points at no purpose", $m::NAME)); }
+            }
+        } }
+        if oks == 0 { fail(format!("{}: no pair of lists accepted at all — the check is vacuous", $m::NAME)); }
+    }
+}}; }
+
 fn main() {
+    {
+        use pallas_primitives::alonzo::{RedeemerPointer as P, RedeemerTag as T};
+        use pallas_primitives::conway::{RedeemersKey as K, RedeemerTag as CT};
+        coverage!(cov_alonzo, vec![P { tag: T::Spend, index: 0 }, P { tag: T::Spend, index: 1 }, P { tag: T::Mint, index: 0 }]);
+        coverage!(cov_babbage, vec![P { tag: T::Spend, index: 0 }, P { tag: T::Spend, index: 1 }, P { tag: T::Mint, index: 0 }]);
+        coverage!(cov_conway, vec![K { tag: CT::Spend, index: 0 }, K { tag: CT::Spend, index: 1 }, K { tag: CT::Mint, index: 0 }]);
+    }
     run_all();
     let (n, c) = (N.with(|n| n.get()), CASES.with(|c| c.get()));
     if c < 10 { fail(format!("only {c} accepted cases found in the test suites — the extraction lost its anchors")); }
-    println!("checked {n} single-rule mutations of {c} accepted transactions");
+    let cov = COV.with(|n| n.get());
+    println!("checked {} cases: {n} single-rule mutations of {c} accepted transactions, and {cov} pairs of redeemer / script-purpose lists through the coverage functions of the three script eras", n + cov);
 }
